@@ -12,7 +12,78 @@ import z3
 
 Ref = z3.DeclareSort("Ref")
 NONE = z3.Const("NONE", Ref)
-I, B, S = z3.IntSort(), z3.BoolSort(), z3.StringSort()
+I, B = z3.IntSort(), z3.BoolSort()
+# Strings are *abstract*: an uninterpreted sort, literals are distinct constants, f-strings are
+# applications of one uninterpreted "format" symbol per shape (tuple of literal pieces), str(int) is the
+# uninterpreted injective `itos`.  z3's sequence solver is never used (it times out on these queries).
+S = z3.DeclareSort("Str")
+str_nonempty = z3.Function("str_nonempty", S, B)
+itos = z3.Function("itos", I, S)
+stoi = z3.Function("stoi", S, I)
+_LITS = {}
+_FMTS = {}
+
+
+def str_lit(x: str):
+    if x not in _LITS:
+        _LITS[x] = z3.Const("lit:" + repr(x), S)
+    return _LITS[x]
+
+
+def string_axioms():
+    """trusted facts about strings (DESIGN 11.9): distinct literals are different, str(int) is injective, a
+    format whose last hole is str(<non-negative int>) after a non-digit literal is injective in that hole"""
+    fs = []
+    lits = list(_LITS.items())
+    if len(lits) > 1:
+        fs.append(z3.Distinct(*[c for _x, c in lits]))
+    for x, c in lits:
+        fs.append(str_nonempty(c) == z3.BoolVal(len(x) > 0))
+    i = z3.Int("i!str")
+    fs.append(z3.ForAll([i], stoi(itos(i)) == i))
+    fs.append(z3.ForAll([i], str_nonempty(itos(i))))
+    for shape, (f, inv) in _FMTS.items():
+        if inv is None:
+            continue
+        vs = [z3.Const(f"h{k}!str", S) for k in range(f.arity())]
+        fs.append(z3.ForAll(vs, inv(f(*vs)) == vs[-1]))
+    return fs
+
+
+def str_concat(parts) -> "StrV":
+    """parts: python str (literal piece) | StrV.  Canonical form: nested formats are flattened and adjacent
+    literal pieces merged, so that equal renderings are syntactically equal terms."""
+    flat = []
+    for p_ in parts:
+        if isinstance(p_, str):
+            sub = [p_]
+        elif getattr(p_, "parts", None) is not None:
+            sub = list(p_.parts)
+        else:
+            sub = [p_.t]
+        for x in sub:
+            if isinstance(x, str) and flat and isinstance(flat[-1], str):
+                flat[-1] = flat[-1] + x
+            elif isinstance(x, str) and x == "":
+                continue
+            else:
+                flat.append(x)
+    if len(flat) == 1:
+        return StrV(flat[0]) if isinstance(flat[0], str) else StrV(flat[0])
+    shape = tuple(x if isinstance(x, str) else None for x in flat)
+    holes = [x for x in flat if not isinstance(x, str)]
+    if shape not in _FMTS:
+        name = "fmt|" + "|".join("%" if x is None else x for x in shape) + "|"
+        f = z3.Function(name, *([S] * len(holes) + [S]))
+        inv = None
+        if holes and shape[-1] is None and len(shape) >= 2 and isinstance(shape[-2], str) and shape[-2] and not shape[-2][-1].isdigit():
+            inv = z3.Function("last:" + name, S, S)
+        _FMTS[shape] = (f, inv)
+    f, _inv = _FMTS[shape]
+    r = StrV(f(*holes))
+    r.parts = flat
+    r.nonempty = any(isinstance(x, str) and x for x in flat)
+    return r
 
 _ctr = itertools.count()
 
@@ -51,8 +122,17 @@ class BoolV(V):
 
 
 class StrV(V):
+    parts = None  # canonical pieces of a format result (python str literals and z3 terms)
+    nonempty = None  # python bool when statically known
+    lit = None
+
     def __init__(self, t):
-        self.t = z3.StringVal(t) if isinstance(t, str) else t
+        if isinstance(t, str):
+            self.lit = t
+            self.nonempty = len(t) > 0
+            self.parts = [t]
+            t = str_lit(t)
+        self.t = t
 
     def __repr__(self):
         return f"StrV({self.t})"
@@ -420,7 +500,9 @@ def truthy(v: V):
     if isinstance(v, IntV):
         return v.t != 0
     if isinstance(v, StrV):
-        return z3.Length(v.t) > 0
+        if v.nonempty is not None:
+            return z3.BoolVal(v.nonempty)
+        return str_nonempty(v.t)
     if isinstance(v, RefV):
         return v.t != NONE
     if isinstance(v, NoneV):
